@@ -109,6 +109,11 @@ fn flags_b(opk: u8, paused: bool, closed: bool, unregistered: bool, native: bool
 }
 
 fn registry_ok(w: &World, cands: &[String], what: &str) {
+    registry_ok_e(w, cands, what, None)
+}
+
+/// `expected`: the membership the owner's successful AddVamm / RemoveVamm calls add up to
+fn registry_ok_e(w: &World, cands: &[String], what: &str, expected: Option<&std::collections::BTreeSet<String>>) {
     let list: Vec<String> = match w.q::<AllVammResponse, _>(&w.ins, &InsQuery::GetAllVamm { limit: None }) {
         Ok(r) => r.vamm_list.iter().map(|a| a.to_string()).collect(),
         Err(_) => vec![], // "No vAMMs are stored" before the first add
@@ -118,6 +123,10 @@ fn registry_ok(w: &World, cands: &[String], what: &str) {
     uniq.dedup();
     prove_d("C14/registry-has-no-duplicates", Cond::from_bool(uniq.len() == list.len()), format!("{} list={:?}", what, list));
     prove_d("C14/registry-holds-at-most-three", Cond::from_bool(list.len() <= 3), format!("{} len={}", what, list.len()));
+    if let Some(exp) = expected {
+        let got: std::collections::BTreeSet<String> = list.iter().cloned().collect();
+        prove_d("C14/registry-holds-exactly-what-was-added-and-not-removed", Cond::from_bool(&got == exp), format!("{} list={:?} expected={:?}", what, list, exp));
+    }
     for c in cands {
         let is = w.q::<VammResponse, _>(&w.ins, &InsQuery::IsVamm { vamm: c.clone() }).map(|r| r.is_vamm).unwrap_or(false);
         prove_d("C14/membership-query-agrees-with-registry", Cond::from_bool(is == list.contains(c)), format!("{} vamm={} is_vamm={} listed={}", what, c, is, list.contains(c)));
@@ -136,19 +145,37 @@ fn registry(len: usize, stride: usize, offset: usize) -> impl Fn() {
             let extra = w.instantiate_vamm(9);
             let mut cands: Vec<String> = w.vamms.iter().map(|a| a.to_string()).collect();
             cands.push(extra.to_string());
-            // start from the empty registry
-            for c in cands.clone().iter().take(3) {
-                assert!(w.ins_exec(OWNER, &InsExec::RemoveVamm { vamm: c.clone() }).ok);
-            }
-            let mut k = idx;
+            // start from the empty registry: the three deployed vAMMs are removed, in an order
+            // that depends on the history index (also exercises removal from a permuted list)
+            let mut expected: std::collections::BTreeSet<String> = cands.iter().take(3).cloned().collect();
+            let orders = [[0usize, 1, 2], [0, 2, 1], [1, 0, 2], [1, 2, 0], [2, 0, 1], [2, 1, 0]];
             let mut hist = String::new();
+            for i in orders[idx % 6] {
+                let c = cands[i].clone();
+                let t = w.ins_exec(OWNER, &InsExec::RemoveVamm { vamm: c.clone() });
+                hist += &format!("-{}{} ", i, if t.ok { "" } else { "!" });
+                prove_d("C14/removing-a-registered-vamm-succeeds", Cond::from_bool(t.ok), format!("{} err={}", hist, crate::sx::norm(&t.err)));
+                if t.ok {
+                    expected.remove(&c);
+                }
+                registry_ok_e(&w, &cands, &hist, Some(&expected));
+            }
+            hist += "| ";
+            let mut k = idx;
             for _ in 0..len {
                 let op = k % 8;
                 k /= 8;
                 let v = cands[op % 4].clone();
-                let t = if op < 4 { w.ins_exec(OWNER, &InsExec::AddVamm { vamm: v }) } else { w.ins_exec(OWNER, &InsExec::RemoveVamm { vamm: v }) };
+                let t = if op < 4 { w.ins_exec(OWNER, &InsExec::AddVamm { vamm: v.clone() }) } else { w.ins_exec(OWNER, &InsExec::RemoveVamm { vamm: v.clone() }) };
                 hist += &format!("{}{}{} ", if op < 4 { "+" } else { "-" }, op % 4, if t.ok { "" } else { "!" });
-                registry_ok(&w, &cands, &hist);
+                if t.ok {
+                    if op < 4 {
+                        expected.insert(v);
+                    } else {
+                        expected.remove(&v);
+                    }
+                }
+                registry_ok_e(&w, &cands, &hist, Some(&expected));
             }
             idx += stride;
         }
